@@ -1,6 +1,7 @@
 """C09 -- an automaton's three views stay coherent (V1, V2, B1, U1)."""
 from ..rules import fsa_rules as F
 from ..rules import cache_rules as CA
+from ..rules import sibling_rules as SI
 from ..rules.common import u1, n1
 
 REL = F.FSA_REL
@@ -25,6 +26,8 @@ def run(ctx):
     ctx.do(CA.rule_c2, "FSA")
     ctx.do(F.rule_v1p)
     ctx.do(F.rule_rf1)
+    ctx.do(SI.rule_fk1, [SI.FSA])
+    ctx.do(SI.rule_v2_rename)
     ctx.do(u1, ENTRIES, min_functions=25)
     ctx.r.assume("set-based model equality over histories and the GAP "
                  "parser's string semantics are not decided (numerical / "
